@@ -224,6 +224,7 @@ MALFORMED = {
                             'm1 13027 1\nTR6 0 0 0\nmode n\n'),
     'imp-cards-of-unequal-length': BASE.replace(' IMP:N=1', '').replace(' IMP:N=0', '').replace(
         'mode n', 'imp:n 1 0\nimp:p 1\nmode n p'),
+    'imp-cards-of-unequal-length,every-cell-with-its-own-keyword': BASE.replace('mode n', 'imp:n 1 0 1\nimp:p 1 0\nmode n p'),
     'mixed-sign-fractions': BASE.replace('m1 13027 1.0', 'm1 1001 -0.1 8016 0.9'),
 }
 MALFORMED_OPTS = {'malformed-lattice-option': (BASE, ['1,0:x'])}
